@@ -116,6 +116,19 @@ func c05Oracle(s *sim, op Op, idx int) {
 				}
 			}
 		}
+		if v.Height > s.w.init {
+			// the commit proofs inside the proposed headers the view holds are stored and gossiped with them
+			pset := s.setFor(v.Height - 1)
+			for _, ph := range v.ProposedHeaders {
+				pcp := ph.Header.PrevCommitProof
+				for _, hash := range sortedKeys(pcp.Proofs) {
+					if _, bad := checkSigs(pset, 1, v.Height-1, pcp.Round, hash, pcp.Proofs[hash]); bad != "" {
+						s.failf("", "unauthentic-signature", "%s view %d/%d, previous commit proof of proposed header %s: %s", where, v.Height, v.Round, hx(ph.Header.Hash), bad)
+						return
+					}
+				}
+			}
+		}
 		if v.Height > s.w.init && len(v.PrevCommitProof.Proofs) > 0 {
 			pset := s.setFor(v.Height - 1)
 			for _, hash := range sortedKeys(v.PrevCommitProof.Proofs) {
@@ -226,7 +239,7 @@ func c05Spec() propSpec {
 		profile: genProfile{
 			w:              map[string]int{"ph": 3, "vote": 12, "round": 3, "sment": 1, "smact": 1, "stall": 1, "read": 1, "conc": 2},
 			phVariants:     []int{phFresh, phFresh, phAltNext, phBadSig, phAnnotated},
-			pcpVariants:    []int{pcpExact, pcpExact, pcpExact, pcpCorruptSig, pcpBelowQuorum, pcpWrongPKH, pcpOtherRoundCert, pcpOtherRoundCert, pcpExtraNil},
+			pcpVariants:    []int{pcpExact, pcpExact, pcpExact, pcpCorruptSig, pcpBelowQuorum, pcpWrongPKH, pcpOtherRoundCert, pcpOtherRoundCert, pcpExtraNil, pcpForgedSide, pcpForgedSide},
 			voteCorr:       allVariants(vcVariants),
 			replayVariants: []int{rvHonest},
 			pkhVariants:    []int{0, 0, 0, 0, 0, 1, 2},
